@@ -257,7 +257,9 @@ def dot_parse(text):
 # ----------------------------------------------------------------------------------------------
 # generators
 
-IDENTS = ['INITIAL', 'M0', 'M1', 'M2', 'STRING', 'Str_1', '_x', 'CamelCase9', 'comment', 'Embed', 'Generic', 'a', 'Z_', 'mode42']
+IDENTS = ['INITIAL', 'M0', 'M1', 'M2', 'STRING', 'Str_1', '_x', 'CamelCase9', 'comment', 'Embed', 'Generic', 'a', 'Z_', 'mode42',
+          # names that matter to a file system or to a naive path manipulation: dots, blanks, case, non-ASCII, leading dot
+          'v1.0', 'lex.code', 'lex.text', 'two words', 'UPPER', 'upper', 'Upper', '\u00dcml\u00e4ut', 'a-b', '.hidden', 'x.dot', 'tar.gz']
 PREFIXES = ['P', 'Test0', 'scanner', 'x_y', 'a.b', 'x-y', 'String', 'p1']
 # literals outside a class (already escaped for the regex syntax); control characters are raw
 NASTY_LIT = ['"', '\\\\', '\t', '\n', '\r', '\x01', '\x7f', 'é', '€', '😀', '\\(', '\\)', '\\#', "'", ';', '<', '>', '=', ',',
